@@ -235,6 +235,17 @@ func fp(objs ...interface{}) string {
 	return sb.String()
 }
 
+// scribble overwrites a caller-owned buffer after a call returned: whatever the
+// callee kept or returned must not depend on it any more
+func (c *ctx) scribble(what string, bufs ...[]byte) {
+	for _, b := range bufs {
+		for i := range b {
+			b[i] ^= 0xa5
+		}
+	}
+	c.rep.Dist("reuse:buffer-overwritten-after-call:" + what)
+}
+
 // unchanged runs f and reports key if the fingerprint of objs() differs afterwards
 func (c *ctx) unchanged(key, what string, replay interface{}, objs func() string, f func()) {
 	before := objs()
@@ -295,10 +306,20 @@ func blsCase(c *ctx, e *env, r *vh.Rng) {
 	var signs []string
 	for i, k := range keys {
 		for j, m := range msgs {
-			sb, err := e.bls.Sign(k.x, m)
+			mbuf := append([]byte{}, m...)
+			sb, err := e.bls.Sign(k.x, mbuf)
 			if err != nil {
 				c.rep.Fail("bls.Sign/error", err.Error(), map[string]interface{}{"env": e.name})
 				continue
+			}
+			// the same key object and message once more, then the caller's message buffer is overwritten
+			keep := append([]byte{}, sb...)
+			sb2, _ := e.bls.Sign(k.x, mbuf)
+			c.rep.Dist("reuse:bls.Sign/twice-same-objects")
+			c.scribble("bls.Sign message", mbuf)
+			if !bytes.Equal(sb2, keep) || !bytes.Equal(sb, keep) {
+				c.rep.Fail("bls.Sign/not-repeatable", "signing the same message twice with the same key object gives two signatures, or the signature follows the caller's message buffer",
+					map[string]interface{}{"env": e.name, "msg": vh.Hex(m), "x": k.xd.String()})
 			}
 			d := mulq(k.xd, hs[j])
 			if e.dlog {
@@ -385,7 +406,16 @@ func blsCase(c *ctx, e *env, r *vh.Rng) {
 					continue
 				}
 				var err error
-				p, pm := vh.Try(func() { err = e.bls.Verify(keys[vk].X, msgs[vm], s.b) })
+				vmsg, vsig := append([]byte{}, msgs[vm]...), append([]byte{}, s.b...)
+				p, pm := vh.Try(func() { err = e.bls.Verify(keys[vk].X, vmsg, vsig) })
+				c.scribble("bls.Verify message and signature", vmsg, vsig)
+				if s.kind == "honest" && vk == s.ki && !p { // the same objects again
+					c.rep.Dist("reuse:bls.Verify/twice-same-objects")
+					if again := e.bls.Verify(keys[vk].X, msgs[vm], s.b); (again == nil) != (err == nil) {
+						c.rep.Fail("bls.Verify/not-repeatable", "verifying the same signature twice under the same key object gives two verdicts",
+							map[string]interface{}{"env": e.name, "sig": vh.Hex(s.b), "verify_key": vk, "verify_msg": vm})
+					}
+				}
 				replay := map[string]interface{}{"env": e.name, "sig": vh.Hex(s.b), "kind": s.kind, "signer": s.ki, "signed_msg": s.mi,
 					"verify_key": vk, "verify_msg": vm, "msgs": mapS(msgs, vh.Hex), "secrets": mapS(keys, func(k kp) string { return k.xd.String() })}
 				if p {
@@ -414,7 +444,7 @@ func blsCase(c *ctx, e *env, r *vh.Rng) {
 		}
 	}
 	if blsState() != blsBefore {
-		c.rep.Fail("bls/mutates-input", "Sign / Verify change a key, signature or message they only read", map[string]interface{}{"env": e.name})
+		c.rep.Fail("bls/inputs-mutated", "Sign / Verify change a key, signature or message they only read", map[string]interface{}{"env": e.name})
 	}
 	c.rep.Dist("bls:" + e.name)
 	c.rep.DistN("bls:verify-calls", len(qs))
@@ -485,7 +515,8 @@ func (pc *polyCtx) state() string {
 	return fp(commits, pc.poly.Coefficients())
 }
 
-func tblsCase(c *ctx, e *env, r *vh.Rng, pc *polyCtx, t, n int, subset []int, junk int, forceDup bool) {
+func tblsCase(c *ctx, e *env, r *vh.Rng, pc *polyCtx, t, n int, subset []int, junk int, mode int) {
+	forceDup, junkFirst := mode == 1, mode == 2
 	if pc == nil {
 		pc = newPolyCtx(e, r, t)
 	}
@@ -566,6 +597,9 @@ func tblsCase(c *ctx, e *env, r *vh.Rng, pc *polyCtx, t, n int, subset []int, ju
 			p = part{b: append([]byte{0, byte(i)}, sb...), idx: i, d: bigOf(0), kind: "identity"}
 		}
 		pos := r.Intn(len(parts) + 1)
+		if junkFirst { // everything that is not an honest partial of the subset comes first
+			pos = 0
+		}
 		parts = append(parts[:pos], append([]part{p}, parts[pos:]...)...)
 	}
 	if e.dlog { // exact: decode what is really in the bytes
@@ -621,14 +655,52 @@ func tblsCase(c *ctx, e *env, r *vh.Rng, pc *polyCtx, t, n int, subset []int, ju
 	var rerr error
 	replay := map[string]interface{}{"env": e.name, "t": t, "n": n, "partials": mapS(sigs, vh.Hex), "kinds": kinds,
 		"distinct_valid": len(distinct), "coefficients": mapS(coefD, (*big.Int).String), "msg": vh.Hex(msg)}
+	if junkFirst {
+		c.rep.Dist("order:tbls.Recover/more-entries-than-n-junk-first")
+	}
+	// a prefix of the caller's slice first (the partials received so far), then the whole slice
+	{
+		k := r.Intn(len(sigs) + 1)
+		dv := map[int]bool{}
+		dup0 := false
+		for _, p := range parts[:k] {
+			if p.valid {
+				if dv[p.idx] {
+					dup0 = true
+				}
+				dv[p.idx] = true
+			}
+		}
+		var rec0 []byte
+		var err0 error
+		var pn0 bool
+		c.unchanged("tbls.Recover/inputs-mutated", "Recover", replay, func() string { return fp(sigs, msg) + pc.state() }, func() {
+			pn0, _ = vh.Try(func() { rec0, err0 = e.tbls.Recover(pub, msg, sigs[:k], uint32(t), uint32(n)) })
+		})
+		c.rep.Dist("reuse:tbls.Recover/prefix-then-full-on-one-slice")
+		replay["prefix"] = k
+		switch {
+		case pn0:
+			c.rep.Fail("tbls.Recover/panics", "Recover panics on a prefix of the list", replay)
+		case len(dv) >= t && (err0 != nil || !bytes.Equal(rec0, direct)):
+			key := "tbls.Recover/valid-subset-refused"
+			if dup0 {
+				key = "tbls.Recover/duplicate-before-t"
+			}
+			c.rep.Fail(key, fmt.Sprintf("the first %d entries hold %d distinct valid partials (t=%d) but Recover on them fails or returns another signature: %v", k, len(dv), t, err0), replay)
+		case len(dv) < t && err0 == nil:
+			c.rep.Fail("tbls.Recover/below-threshold-accepted", fmt.Sprintf("the first %d entries hold only %d distinct valid partials (t=%d) but Recover on them succeeds", k, len(dv), t), replay)
+		}
+		delete(replay, "prefix")
+	}
 	var pn bool
 	var pm string
 	msgCopy := append([]byte{}, msg...)
-	c.unchanged("tbls.Recover/mutates-input", "Recover", replay, func() string { return fp(sigs, msg, msgCopy) + pc.state() }, func() {
+	c.unchanged("tbls.Recover/inputs-mutated", "Recover", replay, func() string { return fp(sigs, msg, msgCopy) + pc.state() }, func() {
 		pn, pm = vh.Try(func() { rec, rerr = e.tbls.Recover(pub, msg, sigs, uint32(t), uint32(n)) })
 	})
 	if pc.state() != polyBefore {
-		c.rep.Fail("tbls/mutates-sharing", "Sign / VerifyPartial / Recover change the sharing polynomial or its commitments", replay)
+		c.rep.Fail("tbls/sharing-mutated", "Sign / VerifyPartial / Recover change the sharing polynomial or its commitments", replay)
 	}
 	// the same objects again, partials in another order: same outcome (the
 	// property holds for every order, and for every use of the same PubPoly)
@@ -686,6 +758,14 @@ func tblsCase(c *ctx, e *env, r *vh.Rng, pc *polyCtx, t, n int, subset []int, ju
 			}
 		}
 	}
+	if rec != nil && rerr == nil && !pn { // the caller's buffers move on; the result must not follow them
+		keep := append([]byte{}, rec...)
+		vBefore := e.tbls.VerifyRecovered(pub.Commit(), msgCopy, rec) == nil
+		c.scribble("tbls.Recover partials and message", append(append([][]byte{}, sigs...), msg)...)
+		if !bytes.Equal(keep, rec) || (e.tbls.VerifyRecovered(pub.Commit(), msgCopy, rec) == nil) != vBefore {
+			c.rep.Fail("tbls.Recover/result-shares-input-buffer", "the recovered signature changes when the caller overwrites the partial signatures or the message", replay)
+		}
+	}
 	c.rep.Dist(fmt.Sprintf("tbls:t=%d,n=%d", t, n))
 	c.rep.Dist(fmt.Sprintf("tbls:recover-status=%d", status))
 	c.rep.Dist("tbls:" + e.name)
@@ -730,13 +810,13 @@ func tblsAll(c *ctx, e *env, r *vh.Rng, maxN, allSubsetsUpTo int, extra int) {
 			pc := newPolyCtx(e, r.Fork(), t) // one sharing serves all scenarios of this (t,n)
 			if n <= allSubsetsUpTo {
 				for _, s := range subsets(n, t) {
-					tblsCase(c, e, r.Fork(), pc, t, n, shuffle(r, s), r.Intn(4), false)
+					tblsCase(c, e, r.Fork(), pc, t, n, shuffle(r, s), r.Intn(4), 0)
 				}
 			}
 			for k := 0; k < extra; k++ {
 				// any number of honest partials (below, at, above t), random order, junk
 				s := shuffle(r, subsets(n, n)[0])[:r.Intn(n+1)]
-				tblsCase(c, e, r.Fork(), pc, t, n, s, r.Intn(6), false)
+				tblsCase(c, e, r.Fork(), pc, t, n, s, r.Intn(6), 0)
 			}
 		}
 	}
@@ -750,7 +830,9 @@ func tblsDup(c *ctx, e *env, r *vh.Rng) {
 		n := 3 + r.Intn(3)
 		t := 2 + r.Intn(n-1)
 		s := shuffle(r, subsets(n, n)[0])[:t]
-		tblsCase(c, e, r.Fork(), nil, t, n, s, 0, true)
+		tblsCase(c, e, r.Fork(), nil, t, n, s, 0, 1)
+		// more entries than signers, all the junk and duplicates before the valid partials
+		tblsCase(c, e, r.Fork(), nil, t, n, shuffle(r, subsets(n, n)[0])[:t+r.Intn(n-t+1)], n+1+r.Intn(4), 2)
 	}
 }
 
@@ -1140,7 +1222,7 @@ func bdnSession(c *ctx, e *env, r *vh.Rng, n, nsteps int) {
 		hist = append(hist, fmt.Sprintf("NewMask(own mode %d)", mode))
 		var m *bdn.Mask
 		var err error
-		c.unchanged("bdn.NewMask/mutates-input", "NewMask", replay, state, func() { m, err = bdn.NewMask(e.keyG, pubs, own) })
+		c.unchanged("bdn.NewMask/inputs-mutated", "NewMask", replay, state, func() { m, err = bdn.NewMask(e.keyG, pubs, own) })
 		if err != nil {
 			obs = append(obs, "[1]")
 			if mode != 2 {
@@ -1161,7 +1243,9 @@ func bdnSession(c *ctx, e *env, r *vh.Rng, n, nsteps int) {
 		case 1:
 			err = objs[k].SetMask(append([]byte{}, o.bytes...))
 		case 2:
-			err = objs[k].Merge(append([]byte{}, o.bytes...))
+			buf := append([]byte{}, o.bytes...)
+			c.unchanged("bdn.Mask.Merge/inputs-mutated", "Merge", replay, func() string { return fp(buf) }, func() { err = objs[k].Merge(buf) })
+			c.scribble("bdn.Mask.Merge", buf)
 		}
 		obs = append(obs, "["+cb01(err != nil)+"]")
 	}
@@ -1202,9 +1286,19 @@ func bdnSession(c *ctx, e *env, r *vh.Rng, n, nsteps int) {
 		var errP, errS error
 		var pP, pS bool
 		var mP, mS string
-		c.unchanged("bdn.Aggregate/changes-precomputed-state", "AggregatePublicKeys / AggregateSignatures", replay, state, func() {
+		// half of the time the signatures are handed over in buffers that are overwritten afterwards
+		passed := sigs
+		ownBufs := r.Bool()
+		if ownBufs {
+			passed = nil
+			for _, sg := range sigs {
+				passed = append(passed, append([]byte{}, sg...))
+			}
+		}
+		c.rep.Dist("reuse:bdn.Aggregate/same-mask-keys-and-signature-objects-again")
+		c.unchanged("bdn.Aggregate/inputs-mutated", "AggregatePublicKeys / AggregateSignatures", replay, func() string { return state() + fp(passed) }, func() {
 			doP := func() { pP, mP = vh.Try(func() { aggPub, errP = e.bdn.AggregatePublicKeys(m) }) }
-			doS := func() { pS, mS = vh.Try(func() { aggSig, errS = e.bdn.AggregateSignatures(sigs, m) }) }
+			doS := func() { pS, mS = vh.Try(func() { aggSig, errS = e.bdn.AggregateSignatures(passed, m) }) }
 			if r.Bool() {
 				doP()
 				doS()
@@ -1244,7 +1338,15 @@ func bdnSession(c *ctx, e *env, r *vh.Rng, n, nsteps int) {
 			if err != nil {
 				panic(err)
 			}
-			ok := e.bdn.Verify(aggPub, msg, sb) == nil
+			if ownBufs {
+				c.scribble("bdn.AggregateSignatures signatures", passed...)
+				if sb2, _ := aggSig.MarshalBinary(); !bytes.Equal(sb, sb2) {
+					c.rep.Fail("bdn.AggregateSignatures/result-shares-input-buffer", "the aggregate signature changes when the caller overwrites the signatures it passed in", replay)
+				}
+			}
+			vmsg, vsig := append([]byte{}, msg...), append([]byte{}, sb...)
+			ok := e.bdn.Verify(aggPub, vmsg, vsig) == nil
+			c.scribble("bdn.Verify message and signature", vmsg, vsig)
 			verdict = cb01(ok)
 			naggs++
 			if variant == 0 && !ok {
@@ -1445,12 +1547,21 @@ func cosiMaskCase(c *ctx, r *vh.Rng, nops int) {
 			case 0:
 				err = m.SetBit(o.i, o.b)
 			case 1:
-				err = m.SetMask(append([]byte{}, o.bytes...))
+				buf := append([]byte{}, o.bytes...)
+				c.unchanged("cosi.Mask.SetMask/inputs-mutated", "SetMask", replay, func() string { return fp(buf, pubs) }, func() { err = m.SetMask(buf) })
+				c.scribble("cosi.Mask.SetMask", buf)
 			case 2:
 				var u []byte
-				u, err = cosi.AggregateMasks(m.Mask(), o.bytes)
+				cur, other := m.Mask(), append([]byte{}, o.bytes...)
+				c.unchanged("cosi.AggregateMasks/inputs-mutated", "AggregateMasks", replay, func() string { return fp(cur, other) }, func() { u, err = cosi.AggregateMasks(cur, other) })
 				if err == nil {
+					keep := append([]byte{}, u...)
+					c.scribble("cosi.AggregateMasks", cur, other)
+					if !bytes.Equal(keep, u) {
+						c.rep.Fail("cosi.AggregateMasks/result-shares-input-buffer", "the aggregate mask changes when the caller overwrites the masks it passed in", replay)
+					}
 					err = m.SetMask(u)
+					c.scribble("cosi.Mask.SetMask", u)
 				}
 			}
 		})
@@ -1635,7 +1746,7 @@ func cosiVerifyCase(c *ctx, r *vh.Rng, real bool) {
 	var verr error
 	var pn bool
 	var pm string
-	c.unchanged("cosi.Verify/mutates-input", "cosi.Verify", replay, func() string { return fp(pubs, tsig, vmsg) }, func() {
+	c.unchanged("cosi.Verify/inputs-mutated", "cosi.Verify", replay, func() string { return fp(pubs, tsig, vmsg) }, func() {
 		pn, pm = vh.Try(func() { verr = cosi.Verify(suite, pubs, vmsg, tsig, pol.mk()) })
 	})
 	if pn {
@@ -1660,7 +1771,13 @@ func cosiVerifyCase(c *ctx, r *vh.Rng, real bool) {
 		c.rep.Count(fmt.Sprintf("cosi-verify-ed25519 %x %s", tsig, kind), true)
 		return
 	}
-	// model inputs: the parsed signature and the challenge-hash table
+	emitCosiV(c, g, pubs, pubD, tsig, vmsg, pol, acc, replay, fmt.Sprintf("cosi-verify %x %s %+v", tsig, kind, pol))
+}
+
+// the Coq case of one cosi.Verify call over vh.DlogGroup: the parsed signature
+// and the challenge-hash table
+func emitCosiV(c *ctx, g *vh.DlogGroup, pubs []kyber.Point, pubD []*big.Int, tsig, vmsg []byte, pol cosiPolicySpec, acc bool, replay map[string]interface{}, canon string) {
+	lenV, lenR := g.PointLen(), g.ScalarLen()
 	sigTerm := "None"
 	var tbl []string
 	if len(tsig) >= lenV+lenR {
@@ -1691,7 +1808,212 @@ func cosiVerifyCase(c *ctx, r *vh.Rng, real bool) {
 		c.rep.Sample(replay)
 	}
 	c.emit(fmt.Sprintf("CCosiV %d %s %s %s %s %s", c.id, czl(pubD), vh.CoqList(tbl), sigTerm, pol.coq(), cb(acc)),
-		replay, fmt.Sprintf("cosi-verify %x %s %+v", tsig, kind, pol), true)
+		replay, canon, true)
+}
+
+// A CoSi session: one leader keeps its key list, mask object, commitment and
+// response objects and runs several signing rounds over them with changing
+// participant sets (cosigners enabled, disabled, re-enabled).  Every
+// aggregation function is called on overlapping sub-slices of the same
+// caller-owned slices (a prefix first - a sub-leader's partial sum, or the
+// answers received so far - then everything, then everything again), the
+// inputs of every call are fingerprinted before and after, every aggregate is
+// compared with the sum of the values the objects were created with, buffers
+// handed in are overwritten afterwards, and the signatures of all rounds are
+// verified again at the end.
+func cosiSession(c *ctx, r *vh.Rng, real bool) {
+	var suite cosi.Suite
+	var g *vh.DlogGroup
+	var order *big.Int
+	if real {
+		es := &edSuite{edwards25519.NewBlakeSHA256Ed25519(), stream(r)}
+		suite = es
+		order, _ = new(big.Int).SetString("7237005577332262213973186563042994240857116359379907606001950938285454250989", 10)
+	} else {
+		g = vh.NewDlogGroup(Q, stream(r))
+		suite, order = g, Q
+	}
+	n := 2 + r.Intn(9)
+	var pubs []kyber.Point
+	var privs []kyber.Scalar
+	var pubD []*big.Int
+	for i := 0; i < n; i++ {
+		x := suite.Scalar().Pick(stream(r))
+		privs = append(privs, x)
+		pubs = append(pubs, suite.Point().Mul(x, nil))
+		if !real {
+			pubD = append(pubD, vh.ScalarVal(x))
+		}
+	}
+	replay := map[string]interface{}{"type": "cosi-session", "real": real, "n": n}
+	var hist []string
+	lead, err := cosi.NewMask(suite, pubs, nil)
+	if err != nil {
+		c.rep.Fail("cosi.NewMask/error", err.Error(), replay)
+		return
+	}
+	ownMask := make([][]byte, n)
+	for i := range pubs {
+		m, err := cosi.NewMask(suite, pubs, pubs[i])
+		if err != nil {
+			c.rep.Fail("cosi.NewMask/error", err.Error(), replay)
+			return
+		}
+		ownMask[i] = m.Mask()
+	}
+	sumS := func(vals []*big.Int) *big.Int {
+		a := big.NewInt(0)
+		for _, v := range vals {
+			a.Add(a, v)
+		}
+		return a.Mod(a, order)
+	}
+	type done struct {
+		sig, keep, msg []byte
+		pol            cosiPolicySpec
+	}
+	var signed []done
+	rounds := 2 + r.Intn(3)
+	for rd := 0; rd < rounds; rd++ {
+		bits := make([]bool, n)
+		var idx []int
+		for i := range bits {
+			if r.Chance(65) {
+				bits[i] = true
+				idx = append(idx, i)
+			}
+		}
+		if len(idx) == 0 {
+			k := r.Intn(n)
+			bits[k], idx = true, []int{k}
+		}
+		cnt := len(idx)
+		msg := append(r.Bytes(r.Pick([]int{0, 5, 64})), byte(rd))
+		hist = append(hist, fmt.Sprintf("round %d participants %v", rd, idx))
+		replay["history"] = hist
+		// commitments: the leader's slices of objects
+		var vs []kyber.Scalar
+		var Vs []kyber.Point
+		var ms [][]byte
+		for _, i := range idx {
+			v, V := cosi.Commit(suite)
+			vs, Vs, ms = append(vs, v), append(Vs, V), append(ms, append([]byte{}, ownMask[i]...))
+		}
+		wantV := func(k int) kyber.Point {
+			a := suite.Point().Null()
+			for _, v := range vs[:k] {
+				a = suite.Point().Add(a, suite.Point().Mul(v, nil))
+			}
+			return a
+		}
+		var aggV kyber.Point
+		var aggM []byte
+		for _, k := range []int{1 + r.Intn(cnt), cnt, cnt} {
+			var err error
+			c.unchanged("cosi.AggregateCommitments/inputs-mutated", "AggregateCommitments", replay, func() string { return fp(Vs, ms) }, func() {
+				aggV, aggM, err = cosi.AggregateCommitments(suite, Vs[:k], ms[:k])
+			})
+			c.rep.Dist("reuse:cosi.AggregateCommitments/overlapping-sub-slices")
+			if err != nil || !aggV.Equal(wantV(k)) {
+				c.rep.Fail("cosi.AggregateCommitments/wrong-sum", fmt.Sprintf("the aggregate of the first %d commitments of the round is not their sum (%v)", k, err), replay)
+				return
+			}
+		}
+		// the long-lived leader mask is brought to this round's participants
+		buf := append([]byte{}, aggM...)
+		if err := lead.SetMask(buf); err != nil {
+			c.rep.Fail("cosi.Mask.SetMask/error", err.Error(), replay)
+			return
+		}
+		c.scribble("cosi.Mask.SetMask", buf)
+		c.rep.Dist("reuse:cosi.Mask/rounds-on-one-mask")
+		if !lead.AggregatePublic.Equal(sumEnabled(suite, pubs, lead.Mask())) || lead.CountEnabled() != cnt || !bytes.Equal(lead.Mask(), aggM) {
+			c.rep.Fail("cosi.Mask/aggregate-out-of-step", "the leader's mask, reused over several rounds, is out of step with the participants", replay)
+			return
+		}
+		var ch kyber.Scalar
+		mbuf := append([]byte{}, msg...)
+		c.unchanged("cosi.Challenge/inputs-mutated", "Challenge", replay, func() string { return fp(aggV, lead.AggregatePublic, mbuf) }, func() {
+			ch, err = cosi.Challenge(suite, aggV, lead.AggregatePublic, mbuf)
+		})
+		if err != nil {
+			c.rep.Fail("cosi.Challenge/error", err.Error(), replay)
+			return
+		}
+		chKeep := vh.ScalarVal(ch)
+		c.scribble("cosi.Challenge message", mbuf)
+		if vh.ScalarVal(ch).Cmp(chKeep) != 0 {
+			c.rep.Fail("cosi.Challenge/result-shares-input-buffer", "the challenge changes when the caller overwrites the message buffer", replay)
+		}
+		// responses: objects the leader keeps; their values at creation are recorded
+		var resp []kyber.Scalar
+		var respD []*big.Int
+		for k, i := range idx {
+			var ri kyber.Scalar
+			c.unchanged("cosi.Response/inputs-mutated", "Response", replay, func() string { return fp(privs[i], vs[k], ch) }, func() {
+				ri, err = cosi.Response(suite, privs[i], vs[k], ch)
+			})
+			if err != nil {
+				c.rep.Fail("cosi.Response/error", err.Error(), replay)
+				return
+			}
+			want := new(big.Int).Mul(vh.ScalarVal(privs[i]), vh.ScalarVal(ch))
+			want.Add(want, vh.ScalarVal(vs[k])).Mod(want, order)
+			if vh.ScalarVal(ri).Cmp(want) != 0 {
+				c.rep.Fail("cosi.Response/not-v+c*a", "Response differs from v + c*a", replay)
+			}
+			resp, respD = append(resp, ri), append(respD, vh.ScalarVal(ri))
+		}
+		// answers received so far, then all of them, then once more
+		var aggR kyber.Scalar
+		for _, k := range []int{1 + r.Intn(cnt), cnt, cnt} {
+			c.unchanged("cosi.AggregateResponses/inputs-mutated", "AggregateResponses", replay, func() string { return fp(resp) }, func() {
+				aggR, err = cosi.AggregateResponses(suite, resp[:k])
+			})
+			c.rep.Dist("reuse:cosi.AggregateResponses/overlapping-sub-slices")
+			if err != nil || vh.ScalarVal(aggR).Cmp(sumS(respD[:k])) != 0 {
+				c.rep.Fail("cosi.AggregateResponses/wrong-sum", fmt.Sprintf("the aggregate of the first %d responses of the round is not the sum of the responses the signers sent (%v)", k, err), replay)
+			}
+		}
+		var sig []byte
+		c.unchanged("cosi.Sign/inputs-mutated", "cosi.Sign", replay, func() string { return fp(aggV, aggR, lead.Mask(), lead.AggregatePublic) }, func() {
+			sig, err = cosi.Sign(suite, aggV, aggR, lead)
+		})
+		if err != nil {
+			c.rep.Fail("cosi.Sign/error", err.Error(), replay)
+			return
+		}
+		pol := cosiPolicySpec{kind: 2, th: cnt - r.Intn(2)}
+		if cnt == n && r.Bool() {
+			pol = cosiPolicySpec{kind: r.Intn(2)}
+		}
+		vbuf, sbuf := append([]byte{}, msg...), append([]byte{}, sig...)
+		var verr error
+		c.unchanged("cosi.Verify/inputs-mutated", "cosi.Verify", replay, func() string { return fp(pubs, sbuf, vbuf) }, func() {
+			verr = cosi.Verify(suite, pubs, vbuf, sbuf, pol.mk())
+		})
+		c.scribble("cosi.Verify message and signature", vbuf, sbuf)
+		replay["sig"] = vh.Hex(sig)
+		if verr != nil {
+			c.rep.Fail("cosi.Verify/honest-rejected", fmt.Sprintf("round %d of a session reusing the leader's objects: an honestly formed collective signature meeting the policy is rejected: %v", rd, verr), replay)
+		}
+		signed = append(signed, done{sig, append([]byte{}, sig...), msg, pol})
+		if !real {
+			emitCosiV(c, g, pubs, pubD, sig, msg, pol, verr == nil, replay, fmt.Sprintf("cosi-session %x", sig))
+		} else {
+			c.rep.Count(fmt.Sprintf("cosi-session-ed25519 %x", sig), true)
+		}
+	}
+	// earlier results after the mask and the buffers moved on
+	for k, d := range signed {
+		if !bytes.Equal(d.sig, d.keep) {
+			c.rep.Fail("cosi.Sign/result-shares-mask-buffer", fmt.Sprintf("the signature of round %d changed when the leader's mask was reused", k), replay)
+		} else if cosi.Verify(suite, pubs, d.msg, d.sig, d.pol.mk()) != nil {
+			c.rep.Fail("cosi.Verify/not-repeatable", fmt.Sprintf("the signature of round %d no longer verifies at the end of the session", k), replay)
+		}
+		c.rep.Dist("reuse:cosi.Verify/earlier-results-rechecked")
+	}
+	c.rep.Dist(fmt.Sprintf("cosi-session:real=%v", real))
 }
 
 type edSuite struct {
@@ -1706,7 +2028,7 @@ func (s *edSuite) RandomStream() cipher.Stream { return s.rnd }
 func main() {
 	o := vh.ParseFlags()
 	rep := vh.NewReport("C09", o.Seed, o.Tier)
-	rep.Rule = "scenarios over the transparent dlog pairing suite (exact values) and the 8 real (suite, signature group) combinations (verdicts, byte equalities): BLS sign/verify matrices over keys x messages x honest/tampered/garbage signatures; threshold BLS for all (t,n), 2<=t<=n<=6, every t-subset for n<=5 in random order with injected duplicates / other-message / wrong-index / garbage / truncated / beyond-n / scaled / identity partials; BDN masks over 1..10 cosigners built by NewMask with and without own key followed by every SetBit/SetMask/Merge/Clone kind sequence of length <=4, aggregation, verification under the same mask, another mask and another message; BDN sessions in which several mask objects sharing one NewMask (base mask, clones, further NewMask results over the same key slice) are reused for 6..20 interleaved SetBit/SetMask/Merge/Clone/AggregatePublicKeys/AggregateSignatures/Verify calls with every call observed; one sharing polynomial / PubPoly reused by all Recover scenarios of a (t,n), each Recover repeated in another order; after every call the values it only reads (keys, coefficients, terms, commitments, signatures, messages) are compared with their fingerprint before it; CoSi mask operation sequences and signed/tampered collective signatures under nil/Complete/Threshold policies. distinct = distinct scenario text; non-trivial = at least one accepted verification / one partial / one mask operation"
+	rep.Rule = "scenarios over the transparent dlog pairing suite (exact values) and the 8 real (suite, signature group) combinations (verdicts, byte equalities): BLS sign/verify matrices over keys x messages x honest/tampered/garbage signatures; threshold BLS for all (t,n), 2<=t<=n<=6, every t-subset for n<=5 in random order with injected duplicates / other-message / wrong-index / garbage / truncated / beyond-n / scaled / identity partials; BDN masks over 1..10 cosigners built by NewMask with and without own key followed by every SetBit/SetMask/Merge/Clone kind sequence of length <=4, aggregation, verification under the same mask, another mask and another message; BDN sessions in which several mask objects sharing one NewMask (base mask, clones, further NewMask results over the same key slice) are reused for 6..20 interleaved SetBit/SetMask/Merge/Clone/AggregatePublicKeys/AggregateSignatures/Verify calls with every call observed; one sharing polynomial / PubPoly reused by all Recover scenarios of a (t,n), each Recover repeated in another order; every aggregation / recovery function (cosi.AggregateCommitments, AggregateResponses, AggregateMasks, bdn.AggregateSignatures, AggregatePublicKeys, tbls.Recover) is called several times on the same caller-owned objects and on overlapping sub-slices (prefix, whole, whole again) inside sessions that keep masks, key lists, commitments and responses alive over several rounds; buffers handed in (messages, signatures, mask bytes, partial signatures) are overwritten after the call and earlier results re-checked; lists longer than n with all junk and duplicates before the valid partials; after every call the values it only reads (keys, coefficients, terms, commitments, signatures, messages) are compared with their fingerprint before it; CoSi mask operation sequences and signed/tampered collective signatures under nil/Complete/Threshold policies. distinct = distinct scenario text; non-trivial = at least one accepted verification / one partial / one mask operation"
 	cf := &vh.CaseFile{Header: "From Kyber Require Import MSig.MSigSM MSig.MSigRun.", Type: "case", Runner: "mismatches"}
 	c := &ctx{rep: rep, cf: cf, search: o.Search}
 	r := vh.NewRng(o.Seed)
@@ -1790,6 +2112,12 @@ func main() {
 	}
 	for k := 0; k < 40*scale; k++ {
 		cosiVerifyCase(c, r.Fork(), true)
+	}
+	for k := 0; k < 25*scale; k++ {
+		cosiSession(c, r.Fork(), false)
+	}
+	for k := 0; k < 10*scale; k++ {
+		cosiSession(c, r.Fork(), true)
 	}
 
 	if !o.Search {
